@@ -607,6 +607,7 @@ type c10entry struct {
 	ret    bool
 	direct bool  // written with Core.Write on the tee itself instead of through a Logger
 	err    error // result of the direct write
+	bulk   int   // > 0: the entry carries a string field of this many bytes
 }
 
 func runC10(c *Ctx) {
@@ -728,6 +729,11 @@ func runC10(c *Ctx) {
 	for i := 0; i < nEntries; i++ {
 		e := &c10entry{id: i, task: g.Draw(nTasks)}
 		e.level = []zapcore.Level{zapcore.InfoLevel, zapcore.ErrorLevel, zapcore.DPanicLevel}[g.Weighted(3, 1, 2)]
+		if g.Chance(8) {
+			// a line larger than the sizes writes are usually atomic or unchunked at
+			e.bulk = pick(g, 4000, 4096, 4200, 9000, 20000, 70000)
+			c.R.Probe("entry of 4-70 KiB")
+		}
 		e.direct = g.Chance(5) && !anyHooked // (a hooked core relies on Check to register its inner core: its own Write only runs the hooks, by design)
 		q.faults = f.Weighted(3, 4, 2, 1)
 		q.nextKey = 0
@@ -769,6 +775,9 @@ func runC10(c *Ctx) {
 					continue
 				}
 				fields := []zap.Field{zap.Int("id", e.id)}
+				if e.bulk > 0 {
+					fields = append(fields, zap.String("bulk", strings.Repeat("z", e.bulk)))
+				}
 				for _, fl := range e.fields {
 					fields = append(fields, fl.field(false))
 				}
